@@ -13,7 +13,7 @@ CONSTANTS
   PbNeg = 0
   PbPos = 2
   PbBound = 3
-  PbOps = {">="}
+  PbOps = {">=", ">"}
   MaxMgrs = 2
   MaxPosts = 2
   EMIT = TRUE
